@@ -26,6 +26,7 @@ let handlers : (string, string list -> string) Hashtbl.t = Hashtbl.create 16
 let reg name f = Hashtbl.replace handlers name f
 
 let ni s = n_of_int (int_of_string s)
+let rec nat_of_int (i : int) : nat = if i <= 0 then O else S (nat_of_int (i - 1))
 let b s = s = "1"
 let list_of s = if s = "-" || s = "" then [] else String.split_on_char ',' s
 
@@ -114,7 +115,91 @@ let run_write (args : string list) : string =
           (int_of_n c.wr_bytes) (show_fds c.wr_fds)) calls) ^ Printf.sprintf " written=%d wire=%s" (int_of_n w) (show_fds (wire_fds calls))
   | _ -> "?bad-args"
 
+(* api <op>* : the message API model (Fds/MsgApi.v).  Application descriptors are named by their position in the list of
+   descriptors the application has acquired so far (opens and successful get / get_args results, in order).
+     O                         open (the k-th open denotes file k)
+     N.<h>                     new message          F.<h>  ref          U.<h> / V.<h>  unref (V: the generator says it is the last reference)
+     A.<h>.<app idx>.<dup ok>  append_basic (UNIX_FD)
+     C.<h>.<h'>.<fail at|->    copy
+     G.<h>.<idx>.<dup ok>      iter_get_basic of the idx-th descriptor
+     R.<h>.<want>.<fail at|->.<mismatch>   get_args with `want` UNIX_FD arguments (+ one of a wrong type)
+     X.<app idx>               the application closes it
+   result per op: <result>/<descriptors held by messages>   result: file ids, 1/0, '-' (= -1 / failure), '.' (nothing) *)
+let run_api (args : string list) : string =
+  let st = ref linit in
+  let app : n list ref = ref [] in
+  let nopen = ref 0 in
+  let file f = match file_of !st.ls_open f with Some x -> string_of_int (int_of_n x) | None -> "?" in
+  let opt s = if s = "-" then None else Some (nat_of_int (int_of_string s)) in
+  let outs = List.map (fun tok ->
+    let ev, before =
+      (match String.split_on_char '.' tok with
+       | ["O"] -> incr nopen; LOpen (n_of_int !nopen), ""
+       | ["N"; h] -> LNew (ni h), ""
+       | ["F"; h] -> LRef (ni h), ""
+       | ["U"; h] | ["V"; h] ->
+           let pre = (match find_msg !st.ls_msgs (ni h) with
+                      | Some m when int_of_n m.lm_refs <= 1 ->
+                          if m.lm_fds = [] then "-" else String.concat "," (List.map file m.lm_fds)
+                      | _ -> ".") in
+           LUnref (ni h), pre
+       | ["A"; h; i; ok] -> LAppend (ni h, List.nth !app (int_of_string i), b ok, true), ""
+       | ["C"; h; h'; fa] -> LCopy (ni h, ni h', opt fa), ""
+       | ["G"; h; i; ok] -> LGet (ni h, ni i, b ok), ""
+       | ["R"; h; w; fa; mm] -> LGetArgs (ni h, nat_of_int (int_of_string w), opt fa, b mm), ""
+       | ["X"; i] -> LAppClose (List.nth !app (int_of_string i)), ""
+       | _ -> failwith ("op " ^ tok)) in
+    let (st', r) = lstep !st ev in
+    st := st';
+    let res = (match ev, r with
+      | LUnref _, _ -> before
+      | _, RNone -> "."
+      | _, RBool true -> "1" | _, RBool false -> "0"
+      | LOpen _, RFd (Some f) -> app := !app @ [f]; "f" ^ file f
+      | _, RFd (Some f) -> app := !app @ [f]; file f
+      | _, RFd None -> "-"
+      | _, RFds (Some l) -> app := !app @ l; if l = [] then "." else String.concat "," (List.map file l)
+      | _, RFds None -> "-") in
+    if st'.ls_fault then "!" else Printf.sprintf "%s/%d" res (List.length (lib_held st'))) args in
+  String.concat " " outs
+
+(* bytes <max_message_unix_fds> <max_message_size> <negotiated 0|1> <read cap> (W:<hex>:<fd ids> | D)* : the byte-level receive
+   path (Fds/ByteLoader.v: the wire package's loader with the descriptor array, inside the transport's read loop), same
+   input and same result vocabulary as harness/c/fds_h.c `run`:  <messages>/<x|->/<pending>  per event *)
+let bytes_of_hex (h : string) : n list =
+  if h = "-" then [] else List.init (String.length h / 2) (fun i -> n_of_int (int_of_string ("0x" ^ String.sub h (2 * i) 2)))
+
+let run_bytes (args : string list) : string =
+  match args with
+  | mf :: ms :: neg :: cap :: evs ->
+      let t = ref { t_b = bl_new (ni ms); t_recv = []; t_closed = []; t_kdrop = [] } in
+      let dead = ref false in
+      let outs = List.map (fun tok ->
+        if !dead then "!/-/0" else
+        match String.split_on_char ':' tok with
+        | ["D"] -> dead := true; "-/-/0"
+        | ["W"; hex; ids] ->
+            let before = List.length (!t).t_b.b_att in
+            let (t', st) = bread_write (ni mf) (ni cap) (b neg) !t (bytes_of_hex hex) (List.map ni (list_of ids)) in
+            t := t';
+            let msgs = t'.t_b.b_l.l_msgs and att = t'.t_b.b_att in
+            let rec drop k l = if k = 0 then l else (match l with [] -> [] | _ :: r -> drop (k - 1) r) in
+            let news = List.combine (drop before msgs) (drop before att) in
+            let items = List.map (fun (m, f) ->
+              let le = (match m.m_header with x :: _ -> int_of_n x = 108 | [] -> true) in
+              Printf.sprintf "M.%d.%s" (int_of_n (u32_at le m.m_header (nat_of_int 8))) (show_fds f)) news in
+            let ms = if items = [] then "-" else String.concat "+" items in
+            (match st with
+             | BEagain -> Printf.sprintf "%s/-/%d" ms (List.length t'.t_b.b_pool)
+             | BIoError | BCorrupt -> dead := true; Printf.sprintf "%s/x/0" ms
+             | BFault -> "!!")
+        | _ -> failwith ("event " ^ tok)) evs in
+      String.concat " " outs ^ " end/0"
+  | _ -> "?bad-args"
+
 let () =
+  reg "bytes" run_bytes;
+  reg "api" run_api;
   reg "write" run_write;
   reg "hist" run_hist;
   reg "ledger" run_ledger
